@@ -30,6 +30,13 @@ def gen_coinbase(rng, small=False):
         count = rng.choice([2**29 - 64, 2**29, 2**29 + 64, 2**31, 2**32 - 64, 2**32, 2**32 + 64,
                             2**40, 2**56, 2**60])
         mid = rng.randbytes(32)
+        if rng.random() < 0.4:
+            # ... or a chaining value that reads like something: SHA-256's initial state (with
+            # a count that says otherwise), all zeros, all ones
+            mid = rng.choice([bytes.fromhex("6a09e667bb67ae853c6ef372a54ff53a"
+                                            "510e527f9b05688c1f83d9ab5be0cd19")] * 2 +
+                             [bytes(32), b"\xff" * 32])
+            count = rng.choice([64, 64, 128, 2 ** 20, count])
         tail = t[split:]
         comp = struct.pack(">Q", count) + mid + tail
         h = sha256_full(sha256_from_midstate(mid, count, tail))[::-1]
